@@ -11,8 +11,10 @@ HDR = tables.V2_HEADER
 
 def step(ctx, R, rule, label, path, args, gmap, assume, want_ok=True):
     """one call of the fixed history; -> list of (extra guards, value) for its Ok outcomes; any other outcome is a violation"""
-    ev, outs = ctx.entry(path, args=args, gmap=gmap, assume=assume)
     res = []
+    if not solver.sat(list(assume)):
+        return res          # this combination of guards cannot occur
+    ev, outs = ctx.entry(path, args=args, gmap=gmap, assume=assume)
     if not outs:
         R.inst(rule, label + '/summary', False, expected='a summary', found='none', entry=path, kind='unprovable')
         return res
